@@ -143,7 +143,11 @@ TplxReasons(r) ==
     (IF r.panic THEN {"panic"} ELSE {})
     \cup (IF ~TemplateJudged(r.raw, 1) \/ r.out = TplxExpected(r) THEN {} ELSE {"replacement-text"})
 
-Reasons(r) == IF r.mode = "tpl" THEN TplReasons(r) ELSE IF r.mode = "tplx" THEN TplxReasons(r)
+\* mode "selfx": the fix is the rule's own pattern with every variable passed through a transformation that changes
+\* nothing; the transformed string stands where the captured text would stand, so the node is rewritten to itself
+SelfxReasons(r) == (IF r.panic THEN {"panic"} ELSE {})
+                   \cup (IF r.out = r.matched THEN {} ELSE {"self-rewrite-through-identity-transform"})
+Reasons(r) == IF r.mode = "selfx" THEN SelfxReasons(r) ELSE IF r.mode = "tpl" THEN TplReasons(r) ELSE IF r.mode = "tplx" THEN TplxReasons(r)
               ELSE IF r.mode = "rewrite" THEN RewriteReasons(r) ELSE EditReasons(r)
 Drift(r)   == IF r.mode = "tpl" THEN TplDrift(r) ELSE IF r.mode = "rewrite" THEN RewriteDrift(r) ELSE {}
 
